@@ -870,6 +870,8 @@ class Evaluator:
         return const(base.args[1])
     if op == 'ite':
       return ite(base.args[0], self.attr(base.args[1], name, n), self.attr(base.args[2], name, n))
+    if op == 'cond' and base.args[1].op in ('rec', 'cond') and base.args[2].op in ('rec', 'cond'):
+      return T('cond', base.args[0], self.attr(base.args[1], name, n), self.attr(base.args[2], name, n))
     return T('attr', base, name, loc=self._loc(n) if n is not None else None)
 
   def _method_value(self, ci, name, recv, is_class_access=False):
@@ -945,6 +947,9 @@ class Evaluator:
       return ite(base.args[0], self.subscript(base.args[1], idx, n), self.subscript(base.args[2], idx, n))
     if base.op == 'unzip' and is_const(idx):
       return T('unzipped', base.args[0], cval(idx))
+    if base.op == 'cond' and (is_const(idx) or idx.op == 'slice') and \
+        base.args[1].op in ('tuple', 'list', 'cond') and base.args[2].op in ('tuple', 'list', 'cond'):
+      return T('cond', base.args[0], self.subscript(base.args[1], idx, n), self.subscript(base.args[2], idx, n))
     return T('sub', base, idx, loc=self._loc(n) if n is not None else None)
 
   # comprehensions
@@ -1402,9 +1407,7 @@ class Evaluator:
     if dotted in ('jax.vmap', 'jax.jit', 'jax.pmap', 'jax.checkpoint') and a:
       return T('vmapped', a[0], tuple(sorted(kwargs.items())), dotted)
     if dotted in ('jax.tree.map', 'jax.tree_util.tree_map', 'jax.tree_map') and len(a) >= 2:
-      leaves = [self.leaf_of(x) for x in a[1:]]
-      elt = self.call(a[0], leaves, {}, n, scope)
-      return T('tmap', elt, tuple(a[1:]), tuple(sorted(kwargs.items())))
+      return self.tree_map(a[0], list(a[1:]), kwargs, n, scope)
     if dotted in ('jax.tree_util.tree_map_with_path', 'jax.tree.map_with_path') and len(a) >= 2:
       leaves = [T('treepath', a[1])] + [self.leaf_of(x) for x in a[1:]]
       elt = self.call(a[0], leaves, {}, n, scope)
@@ -1446,6 +1449,58 @@ class Evaluator:
         p *= cval(x)
       return const(p)
     return None
+
+  def _is_empty_node(self, v):
+    if is_const(v, None):
+      return True
+    if v.op == 'call' and v.args[0].op == 'ext' and v.args[0].args[0].endswith('MaskedNode') and not v.args[1]:
+      return True
+    if v.op == 'call' and v.args[0].op == 'ext' and v.args[0].args[0].endswith('EmptyState') and not v.args[1]:
+      return True
+    return False
+
+  def tree_map(self, f, trees, kwargs, n, scope, depth=0):
+    is_leaf = kwargs.get('is_leaf')
+    v0 = trees[0]
+    if is_leaf is not None:
+      d = self.decide(self.call(is_leaf, [v0], {}, n, scope))
+      if d is True:
+        return self.call(f, trees, {}, n, scope)
+    if depth < 8:
+      if v0.op == 'rec':
+        ci = self.model.classes.get(v0.args[0])
+        static = set(ci.static_fields()) if ci else set()
+        out = []
+        for k, v in v0.args[1]:
+          if k in static:
+            out.append((k, v))
+          else:
+            others = [self.attr(t, k) for t in trees[1:]]
+            out.append((k, self.tree_map(f, [v] + others, kwargs, n, scope, depth + 1)))
+        return T('rec', v0.args[0], tuple(out))
+      if v0.op in ('list', 'tuple'):
+        out = []
+        for i, e in enumerate(v0.args):
+          if e.op == 'star':
+            others = [self.elem_of(t) for t in trees[1:]]
+            out.append(T('star', self.tree_map(f, [e.args[0]] + others, kwargs, n, scope, depth + 1), e.args[1]))
+          else:
+            others = [self.subscript(t, const(i)) for t in trees[1:]]
+            out.append(self.tree_map(f, [e] + others, kwargs, n, scope, depth + 1))
+        return T(v0.op, *out)
+      if self._is_empty_node(v0):
+        return v0
+      if v0.op == 'ite':
+        def arm(i):
+          return self.tree_map(f, [v0.args[i]] + [t.args[i] if (t.op == 'ite' and t.args[0] is v0.args[0]) else t for t in trees[1:]], kwargs, n, scope, depth + 1)
+        return ite(v0.args[0], arm(1), arm(2))
+      if v0.op in ('call', 'bin', 'sub', 'attr', 'default', 'const', 'un', 'cond', 'while') or (v0.op == 'sym' and depth > 0):
+        # an array-like leaf (or an unknown subtree of a known record): apply f
+        if depth > 0 or v0.op in ('call', 'bin'):
+          return self.call(f, trees, {}, n, scope)
+    leaves = [self.leaf_of(x) for x in trees]
+    elt = self.call(f, leaves, {}, n, scope)
+    return T('tmap', elt, tuple(trees), tuple(sorted(kwargs.items())))
 
   def leaf_of(self, t):
     if t.op == 'tmap':
